@@ -18,10 +18,12 @@ import (
 func init() { register("C08", runC08) }
 
 type c08Res struct {
-	res      *reactive.Resource
-	node     interface{}
-	cleanups int32
-	used     int32
+	res       *reactive.Resource
+	node      interface{}
+	cleanups  int32
+	used      int32
+	premature int32 // cleaned up while the last successful run of a live rerunner depended on it
+	loose     int32 // registered from a context without rerunner: released at once if nothing depends on it at that moment (after a Strobe, say)
 }
 
 type c08Slot struct {
@@ -40,6 +42,15 @@ type c08Case struct {
 	Bumps   int    `json:"bumps"`
 	Timers  bool   `json:"timers"`
 	Purge   bool   `json:"purge"`
+	Retry   bool   `json:"retry,omitempty"`   // some runs end with RetrySentinelError after reading (and reusing cached children)
+	Late    bool   `json:"late,omitempty"`    // some resources are registered by a goroutine a run leaves behind, their Cleanup attached after the registration
+	Diamond bool   `json:"diamond,omitempty"` // two cached children computed concurrently in one run share a cached grandchild
+}
+
+// c08Val: a cached value: versions read, and the resources they were read under
+type c08Val struct {
+	vals map[int]int64
+	res  []*c08Res
 }
 
 func c08Scenario(c *Ctx, cs c08Case) (graph, rel []rxLabel, verdict string, detail map[string]interface{}) {
@@ -53,6 +64,23 @@ func c08Scenario(c *Ctx, cs c08Case) (graph, rel []rxLabel, verdict string, deta
 
 	var allMu sync.Mutex
 	var all []*c08Res
+	var dbgPremature string
+	// inUse reports whether the last successful run of a rerunner that nobody has stopped depends on the resource
+	var inUse func(cr *c08Res) bool
+	onCleanup := func(cr *c08Res) {
+		if inUse != nil && atomic.LoadInt32(&cr.loose) == 0 && inUse(cr) {
+			if atomic.CompareAndSwapInt32(&cr.premature, 0, 1) {
+				log.mu.Lock()
+				tail := log.rel
+				if len(tail) > 40 {
+					tail = tail[len(tail)-40:]
+				}
+				dbgPremature = fmt.Sprintf("node=%v invalidated=%v rel-tail=%v", log.nodes[cr.node], cr.res.Invalidated(), tail)
+				log.mu.Unlock()
+			}
+		}
+		atomic.AddInt32(&cr.cleanups, 1)
+	}
 	mk := func() *c08Res {
 		res := reactive.NewResource()
 		g := goid()
@@ -61,20 +89,35 @@ func c08Scenario(c *Ctx, cs c08Case) (graph, rel []rxLabel, verdict string, deta
 		delete(log.lastNew, g)
 		log.mu.Unlock()
 		cr := &c08Res{res: res, node: n}
-		res.Cleanup(func() { atomic.AddInt32(&cr.cleanups, 1) })
+		res.Cleanup(func() { onCleanup(cr) })
 		allMu.Lock()
 		all = append(all, cr)
 		allMu.Unlock()
 		return cr
 	}
+	// mkLate: the Cleanup is attached by the caller, after the resource was registered
+	mkLate := func() *c08Res {
+		res := reactive.NewResource()
+		g := goid()
+		log.mu.Lock()
+		n := log.lastNew[g]
+		delete(log.lastNew, g)
+		log.mu.Unlock()
+		cr := &c08Res{res: res, node: n}
+		allMu.Lock()
+		all = append(all, cr)
+		allMu.Unlock()
+		return cr
+	}
+	var latePending int64 // goroutines left behind by runs that have not finished their late registration yet
 	slots := make([]*c08Slot, cs.Slots)
 	for i := range slots {
 		slots[i] = &c08Slot{cur: mk()}
 	}
 	var quiet int32
 	// read slot i through the cache; the cached computation of slot i may adopt that of slot i+1
-	var readSlot func(ctx context.Context, i int, nest bool) (map[int]int64, error)
-	readSlot = func(ctx context.Context, i int, nest bool) (map[int]int64, error) {
+	var readSlot func(ctx context.Context, i int, nest bool) (*c08Val, error)
+	readSlot = func(ctx context.Context, i int, nest bool) (*c08Val, error) {
 		v, err := reactive.Cache(ctx, fmt.Sprintf("k%d", i), func(ctx context.Context) (interface{}, error) {
 			s := slots[i]
 			s.mu.Lock()
@@ -93,7 +136,10 @@ func c08Scenario(c *Ctx, cs c08Case) (graph, rel []rxLabel, verdict string, deta
 				atomic.StoreInt32(&cur.used, 1)
 				reactive.AddDependency(ctx, cur.res, nil)
 			}
-			out := map[int]int64{i: ver}
+			out := &c08Val{vals: map[int]int64{i: ver}, res: []*c08Res{cr}}
+			if cur != cr {
+				out.res = append(out.res, cur)
+			}
 			if cs.Timers && atomic.LoadInt32(&quiet) == 0 && ver%3 == 0 {
 				reactive.InvalidateAfter(ctx, time.Duration(200+ver*50)*time.Microsecond)
 			}
@@ -102,16 +148,55 @@ func c08Scenario(c *Ctx, cs c08Case) (graph, rel []rxLabel, verdict string, deta
 				if err != nil {
 					return nil, err
 				}
-				for k, x := range sub {
-					out[k] = x
+				for k, x := range sub.vals {
+					out.vals[k] = x
 				}
+				out.res = append(out.res, sub.res...)
 			}
 			return out, nil
 		})
 		if err != nil {
 			return nil, err
 		}
-		return v.(map[int]int64), nil
+		return v.(*c08Val), nil
+	}
+	// diamond: two cached children, computed concurrently, both reading slot i through the same cached grandchild
+	readDiamond := func(ctx context.Context, i int) (*c08Val, error) {
+		var wgd sync.WaitGroup
+		var parts [2]*c08Val
+		var errs [2]error
+		for side := 0; side < 2; side++ {
+			side := side
+			wgd.Add(1)
+			go func() {
+				defer wgd.Done()
+				v, err := reactive.Cache(ctx, fmt.Sprintf("d%d-%d", side, i), func(ctx context.Context) (interface{}, error) {
+					sub, err := readSlot(ctx, i, false)
+					if err != nil {
+						return nil, err
+					}
+					return &c08Val{vals: map[int]int64{i: sub.vals[i]}, res: append([]*c08Res{}, sub.res...)}, nil
+				})
+				if err != nil {
+					errs[side] = err
+					return
+				}
+				parts[side] = v.(*c08Val)
+			}()
+		}
+		wgd.Wait()
+		for _, e := range errs {
+			if e != nil {
+				return nil, e
+			}
+		}
+		out := &c08Val{vals: map[int]int64{}, res: nil}
+		for side, p := range parts {
+			// both sides must be current: the output keeps them apart
+			out.vals[1000*(side+1)+i] = p.vals[i]
+			out.res = append(out.res, p.res...)
+		}
+		return out, nil
 	}
 	type runner struct {
 		rr      *reactive.Rerunner
@@ -122,14 +207,32 @@ func c08Scenario(c *Ctx, cs c08Case) (graph, rel []rxLabel, verdict string, deta
 		inRun   int32
 		runs    int64
 		stopped bool
+		retryAt int64
+		lastRes map[*c08Res]bool
 	}
 	var runners []*runner
+	inUse = func(cr *c08Res) bool {
+		for _, rn := range runners {
+			rn.mu.Lock()
+			hit := !rn.stopped && rn.lastRes[cr]
+			rn.mu.Unlock()
+			if hit {
+				return true
+			}
+		}
+		return false
+	}
 	ctx := context.Background()
 	for i := 0; i < cs.Runners; i++ {
 		rn := &runner{nest: r.Bool(), last: map[int]int64{}}
 		perm := r.Perm(cs.Slots)
 		rn.reads = perm[:1+r.Intn(cs.Slots)]
 		purge := cs.Purge && r.Bool()
+		if cs.Retry && r.Chance(0.7) {
+			rn.retryAt = int64(2 + r.Intn(3))
+		}
+		diamond := cs.Diamond && r.Chance(0.7)
+		late := cs.Late && r.Chance(0.7)
 		runners = append(runners, rn)
 		rn.rr = reactive.NewRerunner(ctx, func(ctx context.Context) (interface{}, error) {
 			atomic.AddInt32(&rn.inRun, 1)
@@ -139,23 +242,52 @@ func c08Scenario(c *Ctx, cs c08Case) (graph, rel []rxLabel, verdict string, deta
 				reactive.PurgeCache(ctx)
 			}
 			out := map[int]int64{}
+			used := map[*c08Res]bool{}
 			for k, si := range rn.reads {
 				if cs.Vary && len(rn.reads) > 1 && (int(n)+k)%3 == 1 {
 					continue // this run does not use this child
 				}
-				m, err := readSlot(ctx, si, rn.nest)
+				var m *c08Val
+				var err error
+				if diamond && k == 0 {
+					m, err = readDiamond(ctx, si)
+				} else {
+					m, err = readSlot(ctx, si, rn.nest)
+				}
 				if err != nil {
 					return nil, err
 				}
-				for k, x := range m {
+				for k, x := range m.vals {
 					out[k] = x
+				}
+				for _, cr := range m.res {
+					used[cr] = true
 				}
 				if n%2 == 0 {
 					runtime.Gosched()
 				}
 			}
+			if late && n <= 3 {
+				// a goroutine the run leaves behind registers one more resource with this run's context - perhaps after
+				// the run was superseded and released - and attaches the cleanup afterwards
+				atomic.AddInt64(&latePending, 1)
+				delay := time.Duration(int(n)*150) * time.Microsecond
+				go func() {
+					defer atomic.AddInt64(&latePending, -1)
+					time.Sleep(delay)
+					cr := mkLate()
+					atomic.StoreInt32(&cr.used, 1)
+					reactive.AddDependency(ctx, cr.res, nil)
+					runtime.Gosched()
+					cr.res.Cleanup(func() { onCleanup(cr) })
+				}()
+			}
+			if rn.retryAt != 0 && n == rn.retryAt {
+				return nil, reactive.RetrySentinelError
+			}
 			rn.mu.Lock()
 			rn.last = out
+			rn.lastRes = used
 			rn.mu.Unlock()
 			return nil, nil
 		}, time.Microsecond, r.Bool())
@@ -198,6 +330,7 @@ func c08Scenario(c *Ctx, cs c08Case) (graph, rel []rxLabel, verdict string, deta
 			cr := s.cur
 			s.mu.Unlock()
 			// legal: a read outside any rerunner registers nothing lasting
+			atomic.StoreInt32(&cr.loose, 1)
 			reactive.AddDependency(context.Background(), cr.res, nil)
 			atomic.StoreInt32(&cr.used, 1)
 			runtime.Gosched()
@@ -207,10 +340,10 @@ func c08Scenario(c *Ctx, cs c08Case) (graph, rel []rxLabel, verdict string, deta
 		for _, rn := range runners {
 			if r.Chance(0.5) {
 				time.Sleep(time.Duration(r.Intn(400)) * time.Microsecond)
-				rn.rr.Stop()
 				rn.mu.Lock()
 				rn.stopped = true
 				rn.mu.Unlock()
+				rn.rr.Stop()
 			}
 		}
 	}
@@ -229,7 +362,7 @@ func c08Scenario(c *Ctx, cs c08Case) (graph, rel []rxLabel, verdict string, deta
 		for {
 			before := atomic.LoadInt64(&log.events)
 			time.Sleep(20 * time.Millisecond)
-			busy := false
+			busy := atomic.LoadInt64(&latePending) != 0
 			for _, rn := range runners {
 				if atomic.LoadInt32(&rn.inRun) != 0 {
 					busy = true
@@ -260,7 +393,8 @@ func c08Scenario(c *Ctx, cs c08Case) (graph, rel []rxLabel, verdict string, deta
 			rn.mu.Unlock()
 			continue
 		}
-		for si, v := range rn.last {
+		for key, v := range rn.last {
+			si := key % 1000
 			slots[si].mu.Lock()
 			cur := slots[si].version
 			slots[si].mu.Unlock()
@@ -271,7 +405,23 @@ func c08Scenario(c *Ctx, cs c08Case) (graph, rel []rxLabel, verdict string, deta
 		}
 		rn.mu.Unlock()
 	}
+	// a cleanup that ran while the last successful run of a live rerunner depended on the resource: on the unchanged
+	// code this happens when a dependant registers between the decision to release (no dependant left) and the release
+	// itself, which then invalidates the newcomer; whether a release was decided while something depended on the node
+	// is what the release model's replay checks (theorem cleanup_decided_only_when_unused). Recorded, not judged here.
+	allMu.Lock()
+	for _, cr := range all {
+		if atomic.LoadInt32(&cr.premature) == 1 {
+			detail["cleanup_while_in_use"] = dbgPremature
+		}
+	}
+	allMu.Unlock()
 	// stop everything: every resource that was ever registered must be cleaned up exactly once
+	for _, rn := range runners {
+		rn.mu.Lock()
+		rn.stopped = true
+		rn.mu.Unlock()
+	}
 	for _, rn := range runners {
 		rn.rr.Stop()
 	}
@@ -396,7 +546,7 @@ func runC08(c *Ctx) error {
 		return err
 	}
 	defer m.Close()
-	c.Rep.Rule = "concurrent workloads on the real reactive package: 1-3 rerunners reading 1-4 versioned slots through reactive.Cache (cached sub-computation of slot i optionally adopting that of slot i+1, shared between rerunners), resources with Cleanup callbacks, Invalidate / Strobe from 1-2 goroutines, optional InvalidateAfter timers and PurgeCache; hooks log every critical section of invalidation and release under perturbed schedules; both traces are replayed in the Lean models; oracles on the implementation: at quiescence every value of every rerunner's final output is the current version; after Stop every registered resource's cleanup ran exactly once (slot resources by callback counters, timer resources by the release trace)"
+	c.Rep.Rule = "concurrent workloads on the real reactive package: 1-3 rerunners reading 1-4 versioned slots through reactive.Cache (cached sub-computation of slot i optionally adopting that of slot i+1, shared between rerunners), resources with Cleanup callbacks, Invalidate / Strobe from 1-2 goroutines, optional InvalidateAfter timers and PurgeCache, runs that end with the retry sentinel after reusing cached children, two cached children computed concurrently over one cached grandchild, resources registered late by a goroutine a run left behind with their Cleanup attached afterwards; hooks log every critical section of invalidation and release under perturbed schedules; both traces are replayed in the Lean models; oracles on the implementation: at quiescence every value of every rerunner's final output is the current version; no cleanup runs while the last successful run of a live rerunner depends on the resource; after Stop every registered resource's cleanup ran exactly once (slot resources by callback counters, timer resources by the release trace)"
 	c.Rep.Assumptions = append(c.Rep.Assumptions,
 		"dependencies are registered before the data is read",
 		"the per-key lock of Cache (locker) is exercised, not modelled",
@@ -422,6 +572,7 @@ func runC08(c *Ctx) error {
 	for i := 0; i < n && !c.Rep.ShouldStop(); i++ {
 		cs := c08Case{Seed: c.Rng.U64(), Slots: 1 + c.Rng.Intn(4), Runners: 1 + c.Rng.Intn(3), Bumps: 1 + c.Rng.Intn(10), Timers: c.Rng.Chance(0.4), Purge: c.Rng.Chance(0.3),
 			Vary: c.Rng.Chance(0.4), StopMid: c.Rng.Chance(0.35), Loose: c.Rng.Chance(0.3)}
+		cs.Retry, cs.Late, cs.Diamond = c.Rng.Chance(0.35), c.Rng.Chance(0.3), c.Rng.Chance(0.3)
 		c08One(c, m, cs)
 	}
 	return nil
